@@ -109,7 +109,7 @@ class InstrumentMachine(Machine):
     assumptions = [
         "raysect Spectrum.integrate (linear interpolation between bin centres) is the definition of the spectrum's integral",
         "range / bin-width invariants are evaluated only for finite, strictly increasing pixel layouts (the property's domain)",
-        "in-place mutation of a list previously handed to a setter is not a 'parameter change' and is not generated",
+        "a container handed to a setter stays the caller's: editing it afterwards is not a parameter change of the instrument",
     ]
     rule = ("cases = seeded (instrument class, initial parameters, op list of setters/refused setters/partial reads/calibrations); "
             "abstraction = sequence of (op kind, attribute or read-set, outcome, cache warm bitmap); non-trivial iff a read or "
@@ -141,21 +141,21 @@ class InstrumentMachine(Machine):
             if u < 0.40:
                 a = rng.choice(focus)
                 ops.append({"op": "set", "attr": a, "value": self._value(rng, kind, a, cfg),
-                            "as": rng.choice(["plain", "plain", "plain", "numpy", "tuple"])})
+                            "as": rng.choice(["plain", "plain", "plain", "numpy", "tuple", "generator"])})
             elif u < 0.48:
                 a = rng.choice(focus)
                 v = self._invalid(rng, kind, a)
                 if v is not None:
                     ops.append({"op": "set", "attr": a, "value": v, "invalid": True})
-            elif u < 0.52 and kind != "polychromator":
+            elif u < 0.54:
                 # the caller keeps using the container it handed over: mutate it (must not reach the instrument), or edit it
                 # and assign the very same object again (must be picked up)
-                # (mutation without re-assignment only where the library documents a copy: Spectrometer converts its arrays;
-                #  CzernyTurnerSpectrometer / Polychromator keep the caller's list, see "assumptions")
-                if kind == "spectrometer":
-                    ops.append({"op": "caller.mutate", "attr": "wavelength_to_pixel", "scale": rng.choice([0.999, 1.0005, 1.01])})
+                ca = {"spectrometer": "wavelength_to_pixel", "czerny": "accommodated_spectra", "polychromator": "filters"}[kind]
+                if kind == "spectrometer" or rng.random() < 0.5:
+                    ops.append({"op": "caller.mutate", "attr": ca, "scale": rng.choice([0.999, 1.0005, 1.01]),
+                                "edit": rng.choice(["item", "append", "delete", "swap"])})
                 else:
-                    ops.append({"op": "edit.reassign", "attr": "accommodated_spectra", "value": self._value(rng, kind, "accommodated_spectra", cfg)})
+                    ops.append({"op": "edit.reassign", "attr": ca, "value": self._value(rng, kind, ca, cfg)})
             elif u < 0.85 or kind == "polychromator":
                 ops.append({"op": "read", "what": sorted(rng.sample(READS, rng.choice([1, 1, 2, 3, len(READS)])))})
             else:
@@ -243,6 +243,8 @@ class InstrumentMachine(Machine):
     def _apply(self, c, obj, attr, value, subject=False):
         if attr == "filters" and isinstance(value, list):
             value = [c.pool[i % len(c.pool)] for i in value]
+            if subject:
+                c.handed[attr] = ("list", value, None)
         elif attr == "wavelength_to_pixel" and subject and isinstance(value, list) and value \
                 and all(isinstance(v, list) and v and all(isinstance(x, float) for x in v) for v in value):
             # hand over float64 ndarray *views* of one base buffer the caller keeps (rows of a calibration table)
@@ -379,7 +381,13 @@ class InstrumentMachine(Machine):
                 return "noop"
             try:
                 how = op.get("as", "plain")
-                if how != "plain" and a != "filters":
+                if how == "generator" and isinstance(op["value"], list) and a in ("filters", "accommodated_spectra", "wavelength_to_pixel"):
+                    # a one-shot iterable: whatever validation the setter does must not use it up
+                    items = [c.pool[i % len(c.pool)] for i in op["value"]] if a == "filters" else [list(v) for v in op["value"]]
+                    setattr(c.obj, a, (x for x in items))
+                    c.handed.pop(a, None)
+                    env.probe("value_given_as_generator")
+                elif how != "plain" and a != "filters":
                     setattr(c.obj, a, self._retype(a, op["value"], how))
                     c.handed.pop(a, None)
                     env.probe("value_given_as_" + how)
@@ -453,9 +461,17 @@ class InstrumentMachine(Machine):
             if h[0] == "ndarray":
                 h[1][:] = h[1] * op["scale"]            # the caller rescales its own calibration table in place
             else:
-                for item in h[1]:
-                    if isinstance(item, list) and item and isinstance(item[0], float):
-                        item[0] = item[0] * op["scale"]
+                lst, edit = h[1], op.get("edit", "item")
+                if edit == "append" and lst:
+                    lst.append(list(lst[0]) if isinstance(lst[0], list) else lst[0])
+                elif edit == "delete" and len(lst) > 1:
+                    del lst[0]
+                elif edit == "swap" and len(lst) > 1:
+                    lst[0], lst[-1] = lst[-1], lst[0]
+                else:
+                    for item in lst:
+                        if isinstance(item, list) and item and isinstance(item[0], float):
+                            item[0] = item[0] * op["scale"]
             # the instrument copied what it was given: nothing may change (specification untouched)
             self._check_params(c, c.obj, c.spec, "subject")
             env.probe("caller_container_mutated")
@@ -466,7 +482,10 @@ class InstrumentMachine(Machine):
             if h is None or h[0] != "list" or a not in c.spec:
                 return "noop"
             lst = h[1]
-            new = [list(v) if isinstance(v, list) else v for v in op["value"]]
+            if a == "filters":
+                new = [c.pool[i % len(c.pool)] for i in op["value"]]
+            else:
+                new = [list(v) if isinstance(v, list) else v for v in op["value"]]
             del lst[:]
             lst.extend(new)                                  # edited in place ...
             try:
